@@ -42,6 +42,11 @@ Theorem C31_model_pred : forall l conc, NoDup (map bid l) ->
 Proof. exact model_run_pred. Qed.
 Print Assumptions C31_model_pred.
 
+(* the value the correspondence check compares the real filter's output with *)
+Theorem C31_model_view : forall l, model_view l = (map bid (kept l), dups l).
+Proof. exact model_view_spec. Qed.
+Print Assumptions C31_model_view.
+
 (* Non-vacuity: two replicas' level-1 blocks 1,2,3 and their compactions:
    block 10 = {1,2,3} hides 11 = {1,2} and the sources; 12 = {3,4} stays (4 is
    not covered); another group is untouched. *)
